@@ -125,6 +125,10 @@ func VerifC03_a6_login_cookies() {
 		verifAssume(alnum(c))
 		res.Csrf = &c
 	}
+	if nondetBool("visits-set") {
+		v := nondetInt("visits")
+		res.Visits = &v
+	}
 	want := *res
 	c := client.NewClient("http", "example.com", nil, nil, nil, false)
 	p := &svc.LoginPayload{Org: "o", Tenant: "t"}
@@ -155,5 +159,6 @@ func VerifC03_a6_login_cookies() {
 		return
 	}
 	verifAssert("login:cookie-attributes", r.Session == want.Session && (r.Csrf == nil) == (want.Csrf == nil) && (r.Csrf == nil || *r.Csrf == *want.Csrf))
+	verifAssert("login:integer-cookie", (r.Visits == nil) == (want.Visits == nil) && (r.Visits == nil || *r.Visits == *want.Visits))
 	verifAssert("login:body-attribute", r.User == want.User)
 }
